@@ -125,7 +125,7 @@ theorem circle_denotation_pi (v : String) (c r : PFun ℝ) (ρ : Env ℝ) (cx cy
     (hc : ∀ q, c.f ([(v, q)] ++ ρ) = [cx, cy]) (hr : ∀ q, r.f ([(v, q)] ++ ρ) = [rr]) :
     S2 v (.circle v c r) ρ = discSet cx cy rr := by
   ext p
-  simp only [S2, mem, get_single, hc, hr, mem_ofPred_eq, discSet]
+  simp only [S2, mem, env_get_single, hc, hr, mem_ofPred_eq, discSet]
   constructor
   · rintro ⟨x, y, cx', cy', rr', h1, h2, h3, h4, h5⟩
     simp only [Option.some.injEq, List.cons.injEq, and_true] at h1 h2 h3
@@ -138,7 +138,7 @@ theorem translate_denotation (v : String) (e : Dom ℝ) (t : PFun ℝ) (ρ : Env
     (ht : ∀ q, t.f ([(v, q)] ++ ρ) = [tx, ty]) :
     S2 v (.translate v e t) ρ = (fun q => q + ![tx, ty]) '' S2 v e ρ := by
   ext p
-  simp only [S2, mem, get_single, ht, mem_ofPred_eq, mem_image]
+  simp only [S2, mem, env_get_single, ht, mem_ofPred_eq, mem_image]
   constructor
   · rintro (⟨q, x, tx', h1, h2, _⟩ | ⟨q1, q2, x, y, tx', ty', h1, h2, hx, hy, hm⟩ | ⟨q1, q2, q3, x, y, z, tx', ty', tz', h1, h2, _⟩)
     · simp at h1
@@ -155,7 +155,7 @@ theorem rotate_denotation (v : String) (e : Dom ℝ) (m c : PFun ℝ) (ρ : Env 
     (hm : ∀ q, m.f ([(v, q)] ++ ρ) = [m00, m01, m10, m11]) (hc : ∀ q, c.f ([(v, q)] ++ ρ) = [cx, cy]) :
     S2 v (.rotate v e m c) ρ = rotMap m00 m01 m10 m11 cx cy '' S2 v e ρ := by
   ext p
-  simp only [S2, mem, get_single, hm, hc, mem_ofPred_eq, mem_image]
+  simp only [S2, mem, env_get_single, hm, hc, mem_ofPred_eq, mem_image]
   constructor
   · rintro ⟨q1, q2, x, y, a, b, c', d, cx', cy', h1, h2, h3, hx, hy, hmem⟩
     simp only [Option.some.injEq, List.cons.injEq, and_true] at h1 h2 h3
@@ -542,7 +542,7 @@ theorem translate_denotation_1d (v : String) (e : Dom ℝ) (t : PFun ℝ) (ρ : 
     (ht : ∀ q, t.f ([(v, q)] ++ ρ) = [tx]) :
     S1 v (.translate v e t) ρ = (fun q => q + tx) '' S1 v e ρ := by
   ext p
-  simp only [S1, mem, get_single, ht, mem_ofPred_eq, mem_image]
+  simp only [S1, mem, env_get_single, ht, mem_ofPred_eq, mem_image]
   constructor
   · rintro (⟨q, x, tx', h1, h2, hx, hm⟩ | ⟨q1, q2, x, y, tx', ty', h1, h2, _⟩ | ⟨q1, q2, q3, x, y, z, tx', ty', tz', h1, h2, _⟩)
     · simp only [Option.some.injEq, List.cons.injEq, and_true] at h1 h2
@@ -676,7 +676,7 @@ theorem sphere_denotation_pi (v : String) (c r : PFun ℝ) (ρ : Env ℝ) (cx cy
     (hc : ∀ q, c.f ([(v, q)] ++ ρ) = [cx, cy, cz]) (hr : ∀ q, r.f ([(v, q)] ++ ρ) = [rr]) :
     S3 v (.sphere v c r) ρ = ballSet cx cy cz rr := by
   ext p
-  simp only [S3, mem, get_single, hc, hr, mem_ofPred_eq, ballSet]
+  simp only [S3, mem, env_get_single, hc, hr, mem_ofPred_eq, ballSet]
   constructor
   · rintro ⟨x, y, z, cx', cy', cz', rr', h1, h2, h3, h4, h5⟩
     simp only [Option.some.injEq, List.cons.injEq, and_true] at h1 h2 h3
@@ -689,7 +689,7 @@ theorem translate_denotation_3d (v : String) (e : Dom ℝ) (t : PFun ℝ) (ρ : 
     (ht : ∀ q, t.f ([(v, q)] ++ ρ) = [tx, ty, tz]) :
     S3 v (.translate v e t) ρ = (fun q => q + ![tx, ty, tz]) '' S3 v e ρ := by
   ext p
-  simp only [S3, mem, get_single, ht, mem_ofPred_eq, mem_image]
+  simp only [S3, mem, env_get_single, ht, mem_ofPred_eq, mem_image]
   constructor
   · rintro (⟨q, x, tx', h1, h2, _⟩ | ⟨q1, q2, x, y, tx', ty', h1, h2, _⟩ | ⟨q1, q2, q3, x, y, z, tx', ty', tz', h1, h2, hx, hy, hz, hm⟩)
     · simp at h1
